@@ -124,6 +124,9 @@ void run_ring(const std::vector<std::vector<Tok>> &secs, Out &o)
       }
     });
   }
+  // a correct run of these tiny configurations needs a few hundred steps; a run that does not end (livelock of a
+  // broken Add) is cut here and reported as STEPLIMIT with the trace so far
+  S.set_step_limit(1200);
   S.run_all();
   // destruction by the controller thread (no other thread is alive): whatever is still queued is freed
   std::set<int> before;
@@ -199,7 +202,7 @@ void run_spin(const std::vector<std::vector<Tok>> &secs, Out &o)
       }
     });
   }
-  S.set_step_limit(20000);
+  S.set_step_limit(3000);
   S.run_all();
   o.tag("M").num(max_in).tag("A").num(acq);
   o.tag("||");
